@@ -1037,7 +1037,7 @@ class Simulation:
                 # Loop over source-frequency pairs.
                 for src, freq in self._srcfreq:
 
-                    efield = self._dict_get('efield', src, freq)
+                    efield = self.get_efield(src, freq)
                     bfield = self._dict_get('bfield', src, freq)
 
                     # Multiply forward field with backward; take real part.
@@ -1334,7 +1334,7 @@ class Simulation:
             source, freq = inp
 
             # Forward electric field
-            efield = self._dict_get('efield', source, freq)
+            efield = self.get_efield(source, freq)
 
             # Interpolate to computational grid.
             cvector = [
